@@ -15,6 +15,11 @@ Four kinds of case
   mapping   Mapping.add sequence, apply queries, inverse()
                                                  -> table dump, answers, inverse = model's; oracle (ii): for a
             one-to-one table of explicit versions the inverse undoes every entry
+  server    mixed-flavor tagged releases written into a directory (DefaultDistrib.writeTaggedRelease or
+            TaggedProductList.write) and read back through ONE DistribServer object by a history of
+            getTaggedProductList / getTaggedProductInfo / getTagNamesFor requests for several flavors in varying order
+                                                 -> answers = model's (cache keyed by (tag, flavor)); oracle (ii): every
+            answer is the per-flavor filter of the written list, whatever was asked before
   remap     manifest.remap files in the customisation directories + a Mapping argument, Manifest.remapEntries
                                                  -> resulting list = model's; oracle (ii): entries no rule names are
             untouched and in order, named ones are replaced / renamed / deleted as the rule says"""
@@ -28,7 +33,7 @@ from .common import parallel_map
 
 RULE = ("cases = dependency lists written and read back through Manifest, addProduct sequences through "
         "TaggedProductList, Mapping.add sequences with apply / inverse queries, manifest.remap files applied by "
-        "remapEntries; a case is non-trivial when the list has at least one entry (manifest, taglist), a query is "
+        "remapEntries, mixed-flavor releases served by one DistribServer object to a history of requests; a case is non-trivial when the list has at least one entry (manifest, taglist), a query is "
         "changed by the table (mapping) or an entry is named by a rule (remap); distinct = distinct case digests")
 TRUSTED = ["CPython `re` on the header patterns and `\\S+` (hand-translated, exercised on every run), `sorted` on str, "
            "`%-15s` formatting, text-mode newline translation on read"]
@@ -135,6 +140,43 @@ def gen_taglist(rng):
     return {"kind": "taglist", "tag": rng.choice(["current", "stable", "beta", "w_2012_10"]), "defFlavor": def_flavor,
             "adds": adds, "writeFlavor": rng.choice([None, None, None, "Linux", "generic"]),
             "readFlavor": rng.choice([def_flavor, def_flavor, None, "Linux", "Linux64", "generic"])}
+
+
+def gen_server(rng):
+    """One or two tagged releases with entries of several flavors; a history of requests to one server object."""
+    tags = rng.sample(["current", "stable", "beta"], rng.randint(1, 2))
+    rel = {}
+    for tag in tags:
+        def_flavor = rng.choice([None, "Linux", "generic"])
+        names = sorted(set(gen_name(rng) for _ in range(rng.randint(1, 8))))
+        if rng.random() < 0.6:
+            rng.shuffle(names)
+        adds = [{"product": nme, "version": gen_version(rng),
+                 "flavor": rng.choice(["Linux", "Linux64", "DarwinX86", "generic", None]),
+                 "extra": [gen_word(rng)] if rng.random() < 0.1 else []} for nme in names]
+        rel[tag] = {"defFlavor": def_flavor, "adds": adds, "writeFlavor": None if rng.random() < 0.9 else rng.choice(["Linux", "generic"]),
+                    "via": rng.choice(["distrib", "direct"])}
+    flavors = ["Linux", "Linux64", "DarwinX86", "generic", None]
+    reqs = []
+    for _ in range(rng.randint(2, 9)):
+        tag = rng.choice(tags + (["absent"] if rng.random() < 0.05 else []))
+        fl = rng.choice(flavors)
+        k = rng.random()
+        prods = [a["product"] for a in rel.get(tag, {"adds": []})["adds"]] + ["unlisted"]
+        if k < 0.5:
+            reqs.append({"op": "list", "tag": tag, "flavor": fl})
+        else:
+            p = rng.choice(prods)
+            vs = [a["version"] for a in rel.get(tag, {"adds": []})["adds"] if a["product"] == p] + ["0.0"]
+            reqs.append({"op": "info" if k < 0.8 else "tagsfor", "tag": tag, "flavor": fl, "product": p,
+                         "version": rng.choice(vs)})
+    if rng.random() < 0.7 and tags:
+        # the order-sensitive pattern: the same tag asked for every flavor, in a random order, then once more
+        t = rng.choice(tags)
+        fs = flavors[:]
+        rng.shuffle(fs)
+        reqs += [{"op": "list", "tag": t, "flavor": f} for f in fs] + [{"op": "list", "tag": t, "flavor": fs[0]}]
+    return {"kind": "server", "releases": rel, "reqs": reqs}
 
 
 def gen_mapping(rng):
@@ -319,6 +361,50 @@ def impl_taglist(c):
     return out
 
 
+_SERVER_N = [0]
+
+
+def impl_server(c):
+    import tempfile
+    from eups.distrib import server
+    import importlib
+    distrib_mod = importlib.import_module("eups.distrib.Distrib")
+    E = _eups()
+    _SERVER_N[0] += 1
+    base = os.path.join(E._c18root, "srv%d" % _SERVER_N[0])
+    os.makedirs(base)
+    tempfile.tempdir = E._c18root                 # DistribServer copies what it fetches into tempfile's directory
+    server.DistribServer._fileCache.clear()       # class-level cache of fetched files, keyed by source path
+    texts = {}
+    for tag, r in c["releases"].items():
+        t = server.TaggedProductList(tag, r["defFlavor"])
+        for a in r["adds"]:
+            t.addProduct(a["product"], a["version"], a["flavor"], list(a["extra"]) if a["extra"] else None)
+        if r["via"] == "distrib":
+            d = distrib_mod.DefaultDistrib(E, None, verbosity=-1)
+            d.writeTaggedRelease(base, tag, t, flavor=r["writeFlavor"], force=True)
+        else:
+            t.write(os.path.join(base, tag + ".list"), r["writeFlavor"])
+        with open(os.path.join(base, tag + ".list"), newline="", encoding="utf-8") as f:
+            texts[tag] = f.read()
+    ds = server.DistribServer(base, verbosity=-1)
+    answers = []
+    for q in c["reqs"]:
+        try:
+            if q["op"] == "list":
+                answers.append({"products": ds.getTaggedProductList(q["tag"], q["flavor"]).getProducts()})
+            elif q["op"] == "info":
+                i = ds.getTaggedProductInfo(q["product"], q["flavor"], q["tag"])
+                answers.append({"info": None if i[1:] == [None, None] else i})
+            else:
+                out, _ = ds.getTagNamesFor(q["product"], q["version"], q["flavor"], tags=[q["tag"]])
+                answers.append({"tags": out})
+        except Exception as e:  # noqa
+            n = type(e).__name__
+            answers.append({"error": "notfound" if n == "RemoteFileNotFound" else exc_name(e)})
+    return {"answers": answers, "files": [[t, x] for t, x in texts.items()]}
+
+
 def dump_table(tbl):
     rows = []
     for f, byp in tbl.items():
@@ -382,7 +468,8 @@ def impl_remap(c):
 
 
 def impl_case(c):
-    return {"manifest": impl_manifest, "taglist": impl_taglist, "mapping": impl_mapping, "remap": impl_remap}[c["kind"]](c)
+    return {"manifest": impl_manifest, "taglist": impl_taglist, "mapping": impl_mapping, "remap": impl_remap,
+            "server": impl_server}[c["kind"]](c)
 
 
 def run_chunk(cases):
@@ -579,7 +666,59 @@ def oracle_remap(c, io_):
                                     [(g["product"], g["version"]) for g in got][:8]))
 
 
-ORACLES = {"manifest": oracle_manifest, "taglist": oracle_taglist, "mapping": oracle_mapping, "remap": oracle_remap}
+def flavor_filter(rel, reader):
+    """What a reader of flavor `reader` is to get of a written release: the entries of that flavor or `generic`."""
+    listflavor = rel["defFlavor"] or "generic"
+    reader = reader or "generic"
+    order, info = [], {}
+    for a in rel["adds"]:
+        if a["product"] not in order:
+            order.append(a["product"])
+        info[a["product"]] = [a["flavor"] if a["flavor"] is not None else listflavor, a["version"]] + list(a["extra"])
+    out = {}
+    for p in order:
+        fl = rel["writeFlavor"] if rel["writeFlavor"] is not None else info[p][0]
+        if fl == "generic":
+            fl = reader
+        if fl == reader:
+            out[p] = [p, fl] + info[p][1:]
+    return out
+
+
+def oracle_server(c, io_):
+    """Every answer is the per-flavor filter of the written release, whatever was asked before."""
+    for r in c["releases"].values():
+        if not clean_taglist({"adds": r["adds"]}):
+            return
+    for i, (q, a) in enumerate(zip(c["reqs"], io_["answers"])):
+        rel = c["releases"].get(q["tag"])
+        if rel is None:
+            if a.get("error") != "notfound":
+                yield ("server_unknown_tag", None, "request %d: tag %r is not on the server, answer %r" % (i, q["tag"], a))
+            continue
+        exp = flavor_filter(rel, q["flavor"])
+        before = [x["flavor"] for x in c["reqs"][:i] if x["tag"] == q["tag"]]
+        if q["op"] == "list":
+            got = a.get("products")
+            if got is None or sorted(map(tuple, got)) != sorted(map(tuple, exp.values())):
+                yield ("server_answer_is_flavor_filter", None,
+                       "request %d: list %s for flavor %r after requests for %r: expected %r, got %r" %
+                       (i, q["tag"], q["flavor"], before, sorted(exp.values())[:5], a))
+        elif q["op"] == "info":
+            if a.get("info", "missing") != exp.get(q["product"]):
+                yield ("server_answer_is_flavor_filter", None,
+                       "request %d: info %s %s for flavor %r after requests for %r: expected %r, got %r" %
+                       (i, q["tag"], q["product"], q["flavor"], before, exp.get(q["product"]), a))
+        else:
+            want = [q["tag"]] if q["product"] in exp and exp[q["product"]][2] == q["version"] else []
+            if a.get("tags") != want:
+                yield ("server_answer_is_flavor_filter", None,
+                       "request %d: tags of %s %s for flavor %r after requests for %r: expected %r, got %r" %
+                       (i, q["product"], q["version"], q["flavor"], before, want, a))
+
+
+ORACLES = {"manifest": oracle_manifest, "taglist": oracle_taglist, "mapping": oracle_mapping, "remap": oracle_remap,
+           "server": oracle_server}
 
 
 # ---- model -----------------------------------------------------------------------------------------
@@ -598,6 +737,8 @@ def model_requests(c, io_):
         if "raw" in io_:
             reqs.append({"m": "c18", "op": "tread", "tag": c["tag"], "defFlavor": c["readFlavor"], "adds": [], "text": io_["raw"]})
         return reqs
+    if k == "server":
+        return [{"m": "c18", "op": "server", "files": io_["files"], "reqs": c["reqs"], "byTagOnly": False}]
     if k == "mapping":
         return [{"m": "c18", "op": "mapping", "adds": c["adds"], "queries": c["queries"]}]
     if k == "remap":
@@ -622,6 +763,8 @@ def model_output(c, io_, answers):
         return out
     if k == "mapping":
         return answers[0]
+    if k == "server":
+        return {"answers": answers[0]["answers"]}
     a = answers[0]
     return a if "error" not in a else {"error": a["error"]}
 
@@ -631,6 +774,8 @@ def impl_view(c, io_):
     k = c["kind"]
     if k in ("manifest", "taglist"):
         return {x: io_[x] for x in io_ if x != "raw"}
+    if k == "server":
+        return {"answers": io_["answers"]}
     if k == "remap" and "error" in io_:
         return {"error": "parse"} if io_["error"] in ("EXC:AttributeError",) else io_
     return io_
@@ -647,6 +792,13 @@ def nontrivial(c, io_):
         return bool(c["deps"])
     if k == "taglist":
         return bool(c["adds"])
+    if k == "server":
+        # at least two different flavors asked of one tag whose release holds entries of more than one flavor
+        for tag, r in c["releases"].items():
+            if len(set(a["flavor"] or r["defFlavor"] or "generic" for a in r["adds"])) > 1 and \
+                    len(set(q["flavor"] for q in c["reqs"] if q["tag"] == tag)) > 1:
+                return True
+        return False
     if k == "mapping":
         return any(list(r) != q[:2] for q, r in zip(c["queries"], io_.get("applied", [])))
     return "deps" in io_ and io_["deps"] != c["deps"]
@@ -686,6 +838,10 @@ def evaluate(ctx, cases):
             ctx.hist("mapping:inverse=%s" % ("ok" if isinstance(io_["inverse"], dict) else io_["inverse"]))
         elif kind == "remap":
             ctx.hist("remap:mode=%s" % c["mode"])
+        elif kind == "server":
+            ctx.hist("server:requests", len(c["reqs"]))
+            if nontrivial(c, io_):
+                ctx.hist("server:mixed-flavors-several-readers")
         if jnorm(mo) != jnorm(iv):
             obs = kind
             if isinstance(mo, dict) and isinstance(iv, dict):
@@ -714,7 +870,7 @@ def corpus_cases():
     return out
 
 
-GEN = {"manifest": gen_manifest, "taglist": gen_taglist, "mapping": gen_mapping, "remap": gen_remap}
+GEN = {"manifest": gen_manifest, "taglist": gen_taglist, "mapping": gen_mapping, "remap": gen_remap, "server": gen_server}
 
 
 def enum_mappings():
@@ -742,7 +898,7 @@ def run(ctx):
     ctx.hist("enumerated-mappings", len(en))
     evaluate(ctx, en)
     for kind, n in (("manifest", ctx.n(3000, 60000)), ("taglist", ctx.n(1500, 30000)), ("mapping", ctx.n(2000, 40000)),
-                    ("remap", ctx.n(2000, 40000))):
+                    ("remap", ctx.n(2000, 40000)), ("server", ctx.n(1200, 25000))):
         done = 0
         while done < n and not ctx.out_of_time():
             k = min(600, n - done)
@@ -751,6 +907,9 @@ def run(ctx):
     h = ctx.histogram
     if h.get("manifest:clean", 0) < 0.5 * max(1, h.get("kind=manifest", 0)):
         raise common.InfraError("degenerate distribution: %d clean manifests" % h.get("manifest:clean", 0))
+    if h.get("server:mixed-flavors-several-readers", 0) < 0.5 * max(1, h.get("kind=server", 0)):
+        raise common.InfraError("degenerate distribution: %d server histories asking several flavors of a mixed-flavor release"
+                                % h.get("server:mixed-flavors-several-readers", 0))
     if h.get("manifest:mixed-flavors", 0) < 0.3 * max(1, h.get("kind=manifest", 0)):
         raise common.InfraError("degenerate distribution: %d manifests with mixed flavors" % h.get("manifest:mixed-flavors", 0))
 
